@@ -2,8 +2,9 @@ import Uhppote.Model.Codec
 /-! Model of uhppote/uhppote.go (`sendto`, `broadcast`, `resolve`, the routing closure) and of the
     32 request-issuing operations (`uhppote/<op>.go`): guards, request construction, reply
     interpretation, written after the source. Layouts, codec facts and tables are parameters
-    (regenerated); the per-operation code is hand-modelled and tied by the `ops` correspondence
-    stream. -/
+    (regenerated); of the per-operation code the guards and the request construction are regenerated
+    (`Gen/Ops.lean`, which also assembles the operation table); the reply interpretation
+    (`result_<Op>`) is hand-modelled and tied by the `ops` correspondence stream and source pins. -/
 namespace Uhppote.Model.Api
 open Uhppote Uhppote.Model
 
@@ -105,73 +106,57 @@ def statusResult (r : List Val) : Res :=
     | _ => [g 2, g 3, g 4, g 5, g 6, g 7, g 8, g 9]
   .vals ([g 1, g 10, g 11, g 12, g 13, g 14, g 15, g 16, g 17, g 18, sys, g 21, g 22, g 23, g 24] ++ ev)
 
-def ops : List Op := [
-  { name := "GetDevice", request := "GetDeviceRequest", reply := some "GetDeviceResponse",
-    rejects := devZero, build := fun a => [hdr, dev a],
-    result := fun _ r => .vals (r.drop 1) },
-  { name := "SetAddress", request := "SetAddressRequest", reply := none,
-    rejects := fun a => devZero a || notIPv4 (arg a 1) || notIPv4 (arg a 2) || notIPv4 (arg a 3),
-    build := fun a => [hdr, dev a, val? (arg a 1), val? (arg a 2), val? (arg a 3), magic],
-    result := fun a _ => .vals [dev a, .bool true] },
-  { name := "GetListener", request := "GetListenerRequest", reply := some "GetListenerResponse",
-    rejects := devZero, build := fun a => [hdr, dev a],
-    result := fun _ r => .vals [r.getD 2 .none_, r.getD 3 .none_] },
-  { name := "SetListener", request := "SetListenerRequest", reply := some "SetListenerResponse",
-    rejects := fun a => devZero a ||
-      (match arg a 1 with
-       | .v (.addrPort (.v4 x y z w p)) => !((x == 0 && y == 0 && z == 0 && w == 0 && p == 0) || p != 0)
-       | _ => true),
-    build := fun a => [hdr, dev a, val? (arg a 1), .u8 (u8? (arg a 2))],
-    -- `uint32(reply.SerialNumber) != controller` cannot happen after sendto's own check
-    result := fun _ r => okBool r 2 },
-  { name := "GetTime", request := "GetTimeRequest", reply := some "GetTimeResponse",
-    rejects := devZero, build := fun a => [hdr, dev a],
-    result := fun _ r => .vals [r.getD 1 .none_, r.getD 2 .none_] },
-  { name := "SetTime", request := "SetTimeRequest", reply := some "SetTimeResponse",
-    rejects := devZero, build := fun a => [hdr, dev a, val? (arg a 1)],
-    result := fun _ r => .vals [r.getD 1 .none_, r.getD 2 .none_] },
-  { name := "GetDoorControlState", request := "GetDoorControlStateRequest", reply := some "GetDoorControlStateResponse",
-    rejects := devZero, build := fun a => [hdr, dev a, .u8 (u8? (arg a 1))],
-    result := fun _ r => .vals [r.getD 1 .none_, r.getD 2 .none_, r.getD 3 .none_, r.getD 4 .none_] },
-  { name := "SetDoorControlState", request := "SetDoorControlStateRequest", reply := some "SetDoorControlStateResponse",
-    rejects := devZero, build := fun a => [hdr, dev a, .u8 (u8? (arg a 1)), .u8 (conv8 (arg a 2)), .u8 (u8? (arg a 3))],
-    result := fun _ r => .vals [r.getD 1 .none_, r.getD 2 .none_, r.getD 3 .none_, r.getD 4 .none_] },
-  { name := "GetStatus", request := "GetStatusRequest", reply := some "GetStatusResponse",
-    rejects := devZero, build := fun a => [hdr, dev a],
-    result := fun _ r => statusResult r },
-  { name := "GetCards", request := "GetCardsRequest", reply := some "GetCardsResponse",
-    rejects := devZero, build := fun a => [hdr, dev a],
-    result := fun _ r => .vals [r.getD 2 .none_] },
-  { name := "GetCardByIndex", request := "GetCardByIndexRequest", reply := some "GetCardByIndexResponse",
-    rejects := devZero, build := fun a => [hdr, dev a, val? (arg a 1)],
-    result := fun _ r =>
+/-- a variadic / slice argument -/
+def list? : Arg → List Nat | .list xs => xs | _ => []
+
+/-! `netip.AddrPort` arguments, at the granularity of `AddrPort` (`other` = the zero value, IPv6,
+    IPv4-mapped, zoned: everything that is not a plain IPv4 address with a port; it is treated as
+    invalid AND not IPv4 — every guard chain in the library rejects both) -/
+def apValid : Arg → Bool | .v (.addrPort (.v4 ..)) => true | _ => false
+def apIs4 : Arg → Bool | .v (.addrPort (.v4 ..)) => true | _ => false
+def apIsZero : Arg → Bool | .v (.addrPort (.v4 x y z w p)) => x == 0 && y == 0 && z == 0 && w == 0 && p == 0 | _ => false
+def apPort : Arg → Nat | .v (.addrPort (.v4 _ _ _ _ p)) => p | _ => 0
+
+/-! ### reply interpretation of each operation (hand-modelled after `uhppote/<op>.go`, tied by the `ops`
+    stream and the source pins; guards and request construction are regenerated: `Gen/Ops.lean`) -/
+
+@[simp] def result_GetDevice : List Arg → List Val → Res := fun _ r => .vals (r.drop 1)
+
+@[simp] def result_SetAddress : List Arg → List Val → Res := fun a _ => .vals [dev a, .bool true]
+
+@[simp] def result_GetListener : List Arg → List Val → Res := fun _ r => .vals [r.getD 2 .none_, r.getD 3 .none_]
+
+@[simp] def result_SetListener : List Arg → List Val → Res := fun _ r => okBool r 2
+
+@[simp] def result_GetTime : List Arg → List Val → Res := fun _ r => .vals [r.getD 1 .none_, r.getD 2 .none_]
+
+@[simp] def result_SetTime : List Arg → List Val → Res := fun _ r => .vals [r.getD 1 .none_, r.getD 2 .none_]
+
+@[simp] def result_GetDoorControlState : List Arg → List Val → Res := fun _ r => .vals [r.getD 1 .none_, r.getD 2 .none_, r.getD 3 .none_, r.getD 4 .none_]
+
+@[simp] def result_SetDoorControlState : List Arg → List Val → Res := fun _ r => .vals [r.getD 1 .none_, r.getD 2 .none_, r.getD 3 .none_, r.getD 4 .none_]
+
+@[simp] def result_GetStatus : List Arg → List Val → Res := fun _ r => statusResult r
+
+@[simp] def result_GetCards : List Arg → List Val → Res := fun _ r => .vals [r.getD 2 .none_]
+
+@[simp] def result_GetCardByIndex : List Arg → List Val → Res := fun _ r =>
       match r.getD 2 .none_ with
       | .u32 n => if n = 0 ∨ n = 0xffffffff then .nil else cardResult r
-      | _ => .err },
-  { name := "GetCardByID", request := "GetCardByIDRequest", reply := some "GetCardByIDResponse",
-    rejects := devZero, build := fun a => [hdr, dev a, val? (arg a 1)],
-    result := fun a r =>
+      | _ => .err
+
+@[simp] def result_GetCardByID : List Arg → List Val → Res := fun a r =>
       match r.getD 2 .none_ with
       | .u32 n => if n = 0 then .nil else if n ≠ u32? (arg a 1) then .err else cardResult r
-      | _ => .err },
-  { name := "PutCard", request := "PutCardRequest", reply := some "PutCardResponse",
-    rejects := fun a =>
-      let card := u32? (arg a 1)
-      let formats := match arg a 9 with | .list xs => xs | _ => []
-      devZero a || card == 0 || card == 0xffffffff || card == 0x00ffffff ||
-      !isCardNumberValid card formats || u32? (arg a 8) > 999999,
-    build := fun a => [hdr, dev a, val? (arg a 1), val? (arg a 2), val? (arg a 3),
-      .u8 (u8? (arg a 4)), .u8 (u8? (arg a 5)), .u8 (u8? (arg a 6)), .u8 (u8? (arg a 7)), val? (arg a 8)],
-    result := fun _ r => okBool r 2 },
-  { name := "DeleteCard", request := "DeleteCardRequest", reply := some "DeleteCardResponse",
-    rejects := devZero, build := fun a => [hdr, dev a, val? (arg a 1)],
-    result := fun _ r => okBool r 2 },
-  { name := "DeleteCards", request := "DeleteCardsRequest", reply := some "DeleteCardsResponse",
-    rejects := devZero, build := fun a => [hdr, dev a, magic],
-    result := fun _ r => okBool r 2 },
-  { name := "GetTimeProfile", request := "GetTimeProfileRequest", reply := some "GetTimeProfileResponse",
-    rejects := devZero, build := fun a => [hdr, dev a, .u8 (u8? (arg a 1))],
-    result := fun a r =>
+      | _ => .err
+
+@[simp] def result_PutCard : List Arg → List Val → Res := fun _ r => okBool r 2
+
+@[simp] def result_DeleteCard : List Arg → List Val → Res := fun _ r => okBool r 2
+
+@[simp] def result_DeleteCards : List Arg → List Val → Res := fun _ r => okBool r 2
+
+@[simp] def result_GetTimeProfile : List Arg → List Val → Res := fun a r =>
       -- r: 0 MsgType 1 Serial 2 ProfileID 3 From 4 To 5-11 Mon..Sun 12-17 segments 18 Linked
       match r.getD 2 .none_ with
       | .u8 n =>
@@ -179,75 +164,42 @@ def ops : List Op := [
         else if n = 0 then .nil
         else .vals ([.u8 n, r.getD 18 .none_, r.getD 3 .none_, r.getD 4 .none_] ++ (r.drop 5).take 7 ++
                     ((r.drop 12).take 6).map hmOfPtr)
-      | _ => .err },
-  { name := "SetTimeProfile", request := "SetTimeProfileRequest", reply := some "SetTimeProfileResponse",
-    rejects := fun a => devZero a || (date? (arg a 3)).isNone || (date? (arg a 4)).isNone ||
-      segRejected (arg a 12) || segRejected (arg a 13) || segRejected (arg a 14),
-    -- args: 0 dev 1 id 2 linked 3 from 4 to 5-11 Mon..Sun 12-14 segments
-    build := fun a => [hdr, dev a, .u8 (u8? (arg a 1)), val? (arg a 3), val? (arg a 4),
-      .bool (bool? (arg a 5)), .bool (bool? (arg a 6)), .bool (bool? (arg a 7)), .bool (bool? (arg a 8)),
-      .bool (bool? (arg a 9)), .bool (bool? (arg a 10)), .bool (bool? (arg a 11)),
-      segStart (arg a 12), segEnd (arg a 12), segStart (arg a 13), segEnd (arg a 13),
-      segStart (arg a 14), segEnd (arg a 14), .u8 (u8? (arg a 2))],
-    result := fun _ r => okBool r 2 },
-  { name := "ClearTimeProfiles", request := "ClearTimeProfilesRequest", reply := some "ClearTimeProfilesResponse",
-    rejects := devZero, build := fun a => [hdr, dev a, magic],
-    result := fun _ r => okBool r 2 },
-  { name := "ClearTaskList", request := "ClearTaskListRequest", reply := some "ClearTaskListResponse",
-    rejects := devZero, build := fun a => [hdr, dev a, magic],
-    result := fun _ r => okBool r 2 },
-  { name := "AddTask", request := "AddTaskRequest", reply := some "AddTaskResponse",
-    rejects := devZero,
-    -- args: 0 dev 1 task(int) 2 door 3 from 4 to 5-11 Mon..Sun 12 start 13 cards
-    build := fun a => [hdr, dev a, val? (arg a 3), val? (arg a 4),
-      .bool (bool? (arg a 5)), .bool (bool? (arg a 6)), .bool (bool? (arg a 7)), .bool (bool? (arg a 8)),
-      .bool (bool? (arg a 9)), .bool (bool? (arg a 10)), .bool (bool? (arg a 11)),
-      val? (arg a 12), .u8 (u8? (arg a 2)), .u8 (conv8 (arg a 1)), .u8 (u8? (arg a 13))],
-    result := fun _ r => okBool r 2 },
-  { name := "RefreshTaskList", request := "RefreshTaskListRequest", reply := some "RefreshTaskListResponse",
-    rejects := devZero, build := fun a => [hdr, dev a, magic],
-    result := fun _ r => okBool r 2 },
-  { name := "RecordSpecialEvents", request := "RecordSpecialEventsRequest", reply := some "RecordSpecialEventsResponse",
-    rejects := devZero, build := fun a => [hdr, dev a, .bool (bool? (arg a 1))],
-    result := fun _ r => okBool r 2 },
-  { name := "GetEvent", request := "GetEventRequest", reply := some "GetEventResponse",
-    rejects := devZero, build := fun a => [hdr, dev a, val? (arg a 1)],
-    result := fun _ r =>
+      | _ => .err
+
+@[simp] def result_SetTimeProfile : List Arg → List Val → Res := fun _ r => okBool r 2
+
+@[simp] def result_ClearTimeProfiles : List Arg → List Val → Res := fun _ r => okBool r 2
+
+@[simp] def result_ClearTaskList : List Arg → List Val → Res := fun _ r => okBool r 2
+
+@[simp] def result_AddTask : List Arg → List Val → Res := fun _ r => okBool r 2
+
+@[simp] def result_RefreshTaskList : List Arg → List Val → Res := fun _ r => okBool r 2
+
+@[simp] def result_RecordSpecialEvents : List Arg → List Val → Res := fun _ r => okBool r 2
+
+@[simp] def result_GetEvent : List Arg → List Val → Res := fun _ r =>
       -- r: 0 MsgType 1 Serial 2 Index 3 Type 4 Granted 5 Door 6 Direction 7 Card 8 Timestamp 9 Reason
       match r.getD 3 .none_, r.getD 2 .none_ with
       | .u8 t, .u32 ix => if t = 0xff then .err else if ix = 0 then .nil else .vals (r.drop 1)
-      | _, _ => .err },
-  { name := "GetEventIndex", request := "GetEventIndexRequest", reply := some "GetEventIndexResponse",
-    rejects := devZero, build := fun a => [hdr, dev a],
-    result := fun _ r => .vals [r.getD 1 .none_, r.getD 2 .none_] },
-  { name := "SetEventIndex", request := "SetEventIndexRequest", reply := some "SetEventIndexResponse",
-    rejects := devZero, build := fun a => [hdr, dev a, val? (arg a 1), magic],
-    result := fun a r => .vals [r.getD 1 .none_, val? (arg a 1), r.getD 2 .none_] },
-  { name := "SetDoorPasscodes", request := "SetDoorPasscodesRequest", reply := some "SetDoorPasscodesResponse",
-    rejects := fun a => devZero a || (u8? (arg a 1)).toNat < 1 || (u8? (arg a 1)).toNat > 4,
-    build := fun a =>
-      let ps := match arg a 2 with | .list xs => xs | _ => []
-      [hdr, dev a, .u8 (u8? (arg a 1)), passcode ps 0, passcode ps 1, passcode ps 2, passcode ps 3],
-    result := fun _ r => okBool r 2 },
-  { name := "OpenDoor", request := "OpenDoorRequest", reply := some "OpenDoorResponse",
-    rejects := devZero, build := fun a => [hdr, dev a, .u8 (u8? (arg a 1))],
-    result := fun _ r => .vals [r.getD 1 .none_, r.getD 2 .none_] },
-  { name := "SetPCControl", request := "SetPCControlRequest", reply := some "SetPCControlResponse",
-    rejects := devZero, build := fun a => [hdr, dev a, magic, .bool (bool? (arg a 1))],
-    result := fun _ r => okBool r 2 },
-  { name := "SetInterlock", request := "SetInterlockRequest", reply := some "SetInterlockResponse",
-    rejects := devZero, build := fun a => [hdr, dev a, .u8 (u8? (arg a 1))],
-    result := fun _ r => okBool r 2 },
-  { name := "ActivateKeypads", request := "ActivateAccessKeypadsRequest", reply := some "ActivateAccessKeypadsResponse",
-    rejects := devZero,
-    build := fun a => [hdr, dev a, .bool (bool? (arg a 1)), .bool (bool? (arg a 2)), .bool (bool? (arg a 3)), .bool (bool? (arg a 4))],
-    result := fun _ r => okBool r 2 },
-  { name := "RestoreDefaultParameters", request := "RestoreDefaultParametersRequest", reply := some "RestoreDefaultParametersResponse",
-    rejects := devZero, build := fun a => [hdr, dev a, magic],
-    result := fun _ r => okBool r 2 }
-]
+      | _, _ => .err
 
-def findOp (name : String) : Option Op := ops.find? (·.name == name)
+@[simp] def result_GetEventIndex : List Arg → List Val → Res := fun _ r => .vals [r.getD 1 .none_, r.getD 2 .none_]
+
+@[simp] def result_SetEventIndex : List Arg → List Val → Res := fun a r => .vals [r.getD 1 .none_, val? (arg a 1), r.getD 2 .none_]
+
+@[simp] def result_SetDoorPasscodes : List Arg → List Val → Res := fun _ r => okBool r 2
+
+@[simp] def result_OpenDoor : List Arg → List Val → Res := fun _ r => .vals [r.getD 1 .none_, r.getD 2 .none_]
+
+@[simp] def result_SetPCControl : List Arg → List Val → Res := fun _ r => okBool r 2
+
+@[simp] def result_SetInterlock : List Arg → List Val → Res := fun _ r => okBool r 2
+
+@[simp] def result_ActivateKeypads : List Arg → List Val → Res := fun _ r => okBool r 2
+
+@[simp] def result_RestoreDefaultParameters : List Arg → List Val → Res := fun _ r => okBool r 2
+
 
 /-! ## routing and `sendto` -/
 
